@@ -140,10 +140,11 @@ structure Peak where
   pos : Nat := 0
 deriving Repr, DecidableEq, Inhabited
 
-/-- smallest binary32 pattern whose value is ≥ 1e-30 (the double constant of float32_be_write) -/
-def tinyBits : Nat := 0x0DA24260
+/-- smallest binary32 pattern `float32_be_write` encodes: FLT_MIN (`fabs (in) < FLT_MIN` returns early since the repair of the
+    portable IEEE writers; before it the constant was the double 1e-30, 0x0DA24260) -/
+def tinyBits : Nat := 0x00800000
 
-/-- `float32_be_write` of a finite non-negative value: patterns below 1e-30 (incl. subnormals) become 0,
+/-- `float32_be_write` of a finite non-negative value: patterns below FLT_MIN (zero and subnormals) become 0,
     everything else keeps its IEEE bits -/
 def f32beWrite (v : Nat) : List Byte := if v % 2 ^ 31 < tinyBits then [0, 0, 0, 0] else beBytes 4 (v % 2 ^ 32)
 
